@@ -374,8 +374,8 @@ def run(ctx):
                             and c['size'][0] != c['size'][1])]
         seeds = [0, 1, 2, 1000 + ctx.seed]
     else:
-        cases = lib_cases(5, 9, 4, 2500)
-        n_user = 40000
+        cases = lib_cases(6, 12, 4, 3000)
+        n_user = 120000
         hs_codes = [c for c in domain.all_code_cases(3, 4, 2, max_n=400)
                     if not (c['cls'] == 'Color666ToricCode'
                             and c['size'][0] != c['size'][1])]
